@@ -1,10 +1,12 @@
 package main
 
 import (
+	"crypto"
 	"crypto/ecdsa"
 	"crypto/ed25519"
 	"crypto/elliptic"
 	"crypto/sha256"
+	"encoding/base64"
 	"encoding/json"
 	"fmt"
 	"strings"
@@ -467,6 +469,8 @@ func (s *syncWorld) sdjwtSeeds() {
 
 			must(hp([]byte(cfi)))
 
+			s.sdHelperSeeds(fmt.Sprintf("v%v.s%v", map[bool]int{false: 2, true: 5}[ver5], structured), cfi)
+
 			name := fmt.Sprintf("sdjwt.v%v.s%v", map[bool]int{false: 2, true: 5}[ver5], structured)
 			s.add(&Seed{Name: name + ".issuance", Layer: "E7", Kind: "token", Wire: []byte(cfi),
 				Targets: []Target{{"sdjwt/holder.Parse", hp}}})
@@ -500,6 +504,59 @@ func (s *syncWorld) sdjwtSeeds() {
 				Targets: []Target{{"sdjwt/verifier.Parse(binding)", vp}, {"sdjwt/verifier.Parse", vpLoose}}})
 		}
 	}
+}
+
+// sdHelperSeeds: the helpers of sdjwt/common on the parts of an issued SD-JWT (single disclosures, the payload claims).
+func (s *syncWorld) sdHelperSeeds(name, cfi string) {
+	cf := common.ParseCombinedFormatForIssuance(cfi)
+
+	discl := func(in []byte) error {
+		_, e := common.GetDisclosureClaims([]string{string(in)}, crypto.SHA256)
+		return e
+	}
+
+	for i, d := range cf.Disclosures {
+		if i >= 3 { //nolint:gomnd
+			break
+		}
+
+		s.add(&Seed{Name: fmt.Sprintf("sdjwt.%s.disclosure%d", name, i), Layer: "E7", Kind: "token", Wire: []byte(d),
+			Targets: []Target{{"sdjwt/common.GetDisclosureClaims", discl}}})
+	}
+
+	parts := strings.Split(cf.SDJWT, ".")
+	if len(parts) != 3 { //nolint:gomnd
+		return
+	}
+
+	payload, err := base64.RawURLEncoding.DecodeString(parts[1])
+	must(err)
+
+	withClaims := func(f func(map[string]interface{}) error) func([]byte) error {
+		return func(in []byte) error {
+			var m map[string]interface{}
+			if e := json.Unmarshal(in, &m); e != nil {
+				return e
+			}
+
+			return f(m)
+		}
+	}
+
+	s.add(&Seed{Name: "sdjwt." + name + ".claims", Layer: "E7", Kind: "json", Wire: payload, Targets: []Target{
+		{"sdjwt/common.GetDisclosureDigests", withClaims(func(m map[string]interface{}) error {
+			_, e := common.GetDisclosureDigests(m)
+			return e
+		})},
+		{"sdjwt/common.GetCNF", withClaims(func(m map[string]interface{}) error {
+			_, e := common.GetCNF(m)
+			return e
+		})},
+		{"sdjwt/common.GetCryptoHashFromClaims", withClaims(func(m map[string]interface{}) error {
+			_, e := common.GetCryptoHashFromClaims(m)
+			return e
+		})},
+	}})
 }
 
 // ---------- X: documents parsed by mostly third-party decoders (explored only) ----------
